@@ -232,6 +232,12 @@ func write(req *protocol.Request, w network.Writer, usingProxy bool) error {
 	if len(body) != 0 || !req.Header.IgnoreBody() {
 		hasBody = true
 		req.Header.SetContentLength(len(body))
+	} else {
+		// no body: no framing fields either, whatever an earlier use of this
+		// request object (a POST written before, a body stream set and dropped)
+		// has left in the header
+		req.Header.Del(consts.HeaderContentLength)
+		req.Header.Del(consts.HeaderTransferEncoding)
 	}
 
 	header := req.Header.Header()
